@@ -367,7 +367,9 @@ def make_setup(case, rng):
             if term[b]:
                 tm[b, rng.integers(h)] = 1
         inp["term"] = tm
-        wd, wr, wdn = 1.0, float(rng.choice([0.1, 1.0])), float(rng.choice([0.1, 1.0]))
+        wd, wr, wdn = (float(rng.choice([1.0, 1.0, 0.0, 0.5])),
+                       float(rng.choice([0.0, 0.1, 1.0])),
+                       float(rng.choice([0.0, 0.1, 1.0])))
         env_term = bool(rng.random() < 0.8)
         norm = bool(rng.random() < 0.7)
         bins = st.the_bins
